@@ -142,6 +142,17 @@ fn gen_abs(r: &mut Rng, depth: usize) -> Abs {
     Abs { st, native, ns_split }
 }
 
+/// the same term with the ASCII case of every language tag swapped (None if it has no tag)
+fn flip_case(st: &ST) -> Option<ST> {
+    match st {
+        SimpleTerm::LiteralLanguage(lex, tag) => { let t: String = tag.as_str().chars().map(|c| if c.is_ascii_lowercase() { c.to_ascii_uppercase() } else { c.to_ascii_lowercase() }).collect(); Some(lit_lang(lex, &t)) }
+        SimpleTerm::Triple(tr) => {
+            let f: Vec<Option<ST>> = tr.iter().map(flip_case).collect();
+            if f.iter().all(|x| x.is_none()) { None } else { let mut it = f.into_iter().zip(tr.iter()).map(|(x, o)| x.unwrap_or_else(|| o.clone())); Some(triple(it.next().unwrap(), it.next().unwrap(), it.next().unwrap())) }
+        }
+        _ => None,
+    }
+}
 fn c_cmp(o: Ordering) -> &'static str { match o { Ordering::Less => "Lt", Ordering::Equal => "Eq", Ordering::Greater => "Gt" } }
 
 fn main() {
@@ -159,7 +170,10 @@ non-trivial pair = equal-but-differently-spelled terms, or same-kind unequal ter
     let pool_size = 14;
     for b in batches {
         let mut r = base.fork(b as u64);
-        let pool: Vec<Abs> = (0..pool_size).map(|_| gen_abs(&mut r, 2)).collect();
+        let mut pool: Vec<Abs> = (0..pool_size).map(|_| gen_abs(&mut r, 2)).collect();
+        // equal-but-differently-spelled twins: every tagged term also appears with its tag case swapped
+        let twins: Vec<Abs> = pool.iter().filter_map(|x| flip_case(&x.st)).map(|st| Abs { st, native: Native::None, ns_split: vec![] }).collect();
+        pool.extend(twins.into_iter().take(4));
         let mut arc_stash = ArcStrStash::new(); let mut rc_stash = RcStrStash::new();
         let all: Vec<Vec<Rep>> = pool.iter().map(|x| reps(x, &mut arc_stash, &mut rc_stash)).collect();
         for (i, x) in pool.iter().enumerate() { header.push_str(&format!("Definition t{b}_{i} : term := {}.\n", coq_term(&x.st))); }
